@@ -128,7 +128,9 @@ func (a *Auth) AuthPlain(username, password string) error {
 		return errors.New("user not found in tables")
 	}
 
-	var lastErr error
+	// Without a password provider there is nothing the password can be
+	// checked against: nobody can be authenticated.
+	lastErr := errors.New("plain_separate: no password providers configured")
 	for _, p := range a.passwd {
 		if err := p.AuthPlain(username, password); err != nil {
 			lastErr = err
